@@ -1,4 +1,4 @@
-import ElaVerif.Lemmas.Proposal
+import ElaVerif.Lemmas.ProposalInv
 /-!
 # C29 — proposal spending stays within approved budgets  (claimed **partial**)
 
@@ -21,7 +21,7 @@ and the oracle only.
 -/
 namespace ElaVerif.C29
 open ElaVerif.Proposal
-open ElaVerif.Deposit (get)
+open ElaVerif.Deposit (get get_mapKV)
 
 /-! ## committed ≤ available -/
 
@@ -115,5 +115,180 @@ theorem C29_two_withdraws_false : ¬ PayoutFullStrength := by
 
 /-- non-vacuity of `C29_withdraw_step_partial`: the witness proposal satisfies its hypotheses. -/
 example : checkWithdraw wP wProp 100000000000 = none := by decide
+
+/-! ## whole histories -/
+
+/-- the invariant: proposal ids are unique; every proposal record is well-formed — stages
+    distinct, amounts ≥ 0, withdrawn ⊆ withdrawable, and what was recorded for payment is exactly the sum of the
+    stages marked withdrawn (each stage counted once); the committee's used amount is within the stage amount. -/
+def Inv (s : State) : Prop :=
+  (keys s.props).Nodup ∧ (∀ id p, get id s.props = some p → PropOK p) ∧ s.used ≤ s.stage
+
+/-- the block's transactions pass the context checks the way `checkTxsContext` runs them: each against the
+    pre-block state, proposals additionally against the running `proposalsUsedAmount`. -/
+def acceptTxs (P : Params) (s : State) : Int → List Tx → Bool
+  | _, [] => true
+  | acc, tx :: t => (check P s acc tx).isNone &&
+      acceptTxs P s (acc + (match tx with | .propose _ bs => total bs | _ => 0)) t
+
+/-- at most one withdrawal per proposal in the block. (The second guard of the brief, at most one tracking
+    per proposal, is what a proof of "the counter never understates what is owed" would need; the conclusions
+    below do not need it.) -/
+def Guarded (txs : List Tx) : Prop := ∀ id, (txs.filter (isWithdraw id)).length ≤ 1
+
+def applyBlock (P : Params) (h : Nat) (s : State) (txs : List Tx) : Option State :=
+  if acceptTxs P s 0 txs then some (endBlock P h (txs.foldl (applyTx h s) s)) else none
+
+theorem acceptTxs_facts (P : Params) (s : State) : ∀ (txs : List Tx) (acc : Int),
+    0 ≤ s.stage - s.used - acc → acceptTxs P s acc txs = true →
+    (∀ tx ∈ txs, ∃ a, check P s a tx = none) ∧ acc + proposedSum txs ≤ s.stage - s.used := by
+  intro txs
+  induction txs with
+  | nil => intro acc h0 _; exact ⟨fun tx h => by cases h, by simp [proposedSum]; omega⟩
+  | cons tx t ih =>
+    intro acc h0 h
+    simp only [acceptTxs, Bool.and_eq_true, Option.isNone_iff_eq_none] at h
+    obtain ⟨h1, h2⟩ := h
+    cases tx with
+    | propose id bs =>
+      obtain ⟨ha, hb⟩ := checkPropose_none s acc bs h1
+      obtain ⟨i1, i2⟩ := ih (acc + total bs) (by omega) h2
+      refine ⟨?_, by simp only [proposedSum]; omega⟩
+      intro tx htx
+      rcases List.mem_cons.mp htx with rfl | htx
+      · exact ⟨acc, h1⟩
+      · exact i1 tx htx
+    | review id m a =>
+      obtain ⟨i1, i2⟩ := ih (acc + 0) (by omega) h2
+      exact ⟨fun tx htx => by rcases List.mem_cons.mp htx with rfl | htx; exact ⟨acc, h1⟩; exact i1 tx htx,
+        by simp only [proposedSum]; omega⟩
+    | rejvotes id a =>
+      obtain ⟨i1, i2⟩ := ih (acc + 0) (by omega) h2
+      exact ⟨fun tx htx => by rcases List.mem_cons.mp htx with rfl | htx; exact ⟨acc, h1⟩; exact i1 tx htx,
+        by simp only [proposedSum]; omega⟩
+    | withdraw id a =>
+      obtain ⟨i1, i2⟩ := ih (acc + 0) (by omega) h2
+      exact ⟨fun tx htx => by rcases List.mem_cons.mp htx with rfl | htx; exact ⟨acc, h1⟩; exact i1 tx htx,
+        by simp only [proposedSum]; omega⟩
+    | track id k st =>
+      obtain ⟨i1, i2⟩ := ih (acc + 0) (by omega) h2
+      exact ⟨fun tx htx => by rcases List.mem_cons.mp htx with rfl | htx; exact ⟨acc, h1⟩; exact i1 tx htx,
+        by simp only [proposedSum]; omega⟩
+
+theorem chkP_of_check (P : Params) (s : State) (acc : Int) (id : Nat) (tx : Tx)
+    (hc : check P s acc tx = none) : chkP id (get id s.props) tx := by
+  cases tx with
+  | propose id' bs => exact checkPropose_budgets s acc bs hc
+  | withdraw id' amount =>
+    intro hid; subst hid
+    simp only [check] at hc
+    cases hg : get id' s.props with
+    | none => simp [hg] at hc
+    | some p =>
+      simp only [hg] at hc
+      refine ⟨p, rfl, ?_⟩
+      unfold checkWithdraw at hc
+      repeat (first | (split at hc; (first | cases hc | skip)))
+      all_goals (try cases hc)
+      all_goals omega
+  | review id' m a => trivial
+  | rejvotes id' a => trivial
+  | track id' k st => trivial
+
+/-- **Partial** (guarded): a block accepted by the context checks with at most one withdrawal per proposal
+    preserves the invariant. -/
+theorem C29_inv_partial (P : Params) (h : Nat) (s : State) (txs : List Tx) (s' : State)
+    (hinv : Inv s) (hwf : ∀ tx ∈ txs, wfTx tx) (hg : Guarded txs)
+    (hb : applyBlock P h s txs = some s') : Inv s' := by
+  obtain ⟨hnd, hok, hused⟩ := hinv
+  unfold applyBlock at hb
+  split at hb
+  · rename_i hacc
+    cases hb
+    obtain ⟨hchk, hsum⟩ := acceptTxs_facts P s txs 0 (by omega) hacc
+    have hndf := keys_foldl h s txs s hnd
+    -- every proposal after the transactions is well-formed
+    have hokf : ∀ id p, get id (txs.foldl (applyTx h s) s).props = some p → PropOK p := by
+      intro id p hp
+      rw [get_foldl_props] at hp
+      have hfold := fold_prop_ok h id (get id s.props)
+        (by cases hg0 : get id s.props with
+            | none => trivial
+            | some q => exact hok id q hg0)
+        txs (get id s.props) hwf
+        (fun tx htx => by obtain ⟨a, ha⟩ := hchk tx htx; exact chkP_of_check P s a id tx ha)
+        (hg id)
+        (by cases hg0 : get id s.props with
+            | none => trivial
+            | some q => exact hok id q hg0)
+        (fun _ p0 hp0 => ⟨p0, hp0, Grow.refl _⟩)
+      rw [hp] at hfold
+      exact hfold
+    obtain ⟨hu, hst⟩ := used_foldl h s txs s
+    have hle := sumD_le s hok txs
+    refine ⟨?_, ?_, ?_⟩
+    · simp only [endBlock]; rw [keys_mapKV]; exact hndf
+    · intro id p' hp'
+      simp only [endBlock, get_mapKV] at hp'
+      cases hf : get id (txs.foldl (applyTx h s) s).props with
+      | none => simp [hf] at hp'
+      | some p =>
+        rw [hf] at hp'
+        simp only [Option.map, Option.some.injEq] at hp'
+        subst hp'
+        exact updateProp_ok P h p (hokf id p hf)
+    · have hrel := released_nonneg P h (txs.foldl (applyTx h s) s).props
+        (fun kv hkv => hokf kv.1 kv.2 (get_of_mem _ hndf kv.1 kv.2 hkv))
+      simp only [endBlock]
+      rw [hu, hst]; omega
+  · cases hb
+
+/-- states reachable from a committee with no proposals through guarded, accepted blocks (any heights). -/
+inductive Reachable (P : Params) (stage used0 : Int) : State → Prop
+  | init : used0 ≤ stage → Reachable P stage used0 ⟨stage, used0, used0, []⟩
+  | block (h : Nat) (s : State) (txs : List Tx) (s' : State) :
+      Reachable P stage used0 s → (∀ tx ∈ txs, wfTx tx) → Guarded txs → applyBlock P h s txs = some s' →
+      Reachable P stage used0 s'
+
+/-- **Partial**: over all histories of guarded blocks the invariant holds. -/
+theorem C29_reachable_partial (P : Params) (stage used0 : Int) (s : State)
+    (hr : Reachable P stage used0 s) : Inv s := by
+  induction hr with
+  | init h0 => exact ⟨by simp [keys], fun id p h => by simp [Deposit.get] at h, h0⟩
+  | block h s txs s' _ hwf hg hb ih => exact C29_inv_partial P h s txs s' ih hwf hg hb
+
+/-- the property in its own words, over all histories of guarded blocks: for every proposal the amount recorded
+    for payment equals the sum of the stages marked withdrawn (each stage once), is at most the sum of the
+    approved budgets, a withdrawn stage is a withdrawable stage, and the committee's used amount never exceeds
+    its stage amount. -/
+theorem C29_history_partial (P : Params) (stage used0 : Int) (s : State) (hr : Reachable P stage used0 s) :
+    (∀ id p, get id s.props = some p →
+        p.paid = withdrawnSum p.budgets ∧ p.paid ≤ total p.budgets ∧ (∀ b ∈ p.budgets, b.wn = true → b.w = true)) ∧
+    s.used ≤ s.stage := by
+  obtain ⟨_, hok, hu⟩ := C29_reachable_partial P stage used0 s hr
+  refine ⟨fun id p hp => ?_, hu⟩
+  obtain ⟨_, h2, h3, h4⟩ := hok id p hp
+  exact ⟨h4, by rw [h4]; exact withdrawnSum_le_total _ h2, h3⟩
+
+/-- non-vacuity: from the witness state a guarded block with a withdrawal, a progress tracking and a new
+    proposal is accepted, and the hypotheses of `C29_inv_partial` hold for it. -/
+def wGood : List Tx :=
+  [.withdraw 0 100000000000, .track 0 .progress 1,
+   .propose 1 [⟨.imprest, 0, 5000000000, false, false⟩, ⟨.final, 1, 7000000000, false, false⟩]]
+
+example : applyBlock wP 10 wS wGood = some (endBlock wP 10 (wGood.foldl (applyTx 10 wS) wS)) ∧
+    (∀ tx ∈ wGood, wfTx tx) ∧ Guarded wGood ∧ wS.used ≤ wS.stage := by
+  refine ⟨by decide, ?_, ?_, by decide⟩
+  · intro tx htx
+    simp only [wGood, List.mem_cons, List.mem_nil_iff, or_false] at htx
+    rcases htx with rfl | rfl | rfl
+    · trivial
+    · trivial
+    · intro b hb; simp at hb; rcases hb with rfl | rfl <;> exact ⟨rfl, rfl⟩
+  · intro id
+    by_cases h0 : id = 0
+    · subst h0; decide
+    · have e0 : ((0 : Nat) == id) = false := by simp; omega
+      simp [wGood, List.filter, isWithdraw, e0]
 
 end ElaVerif.C29
